@@ -369,6 +369,9 @@ func BVURem(a, b *Term) *Term {
 	if a.Const && b.Const && b.U != 0 {
 		return BV(a.U%b.U, a.W)
 	}
+	if b.Const && b.U != 0 && b.U&(b.U-1) == 0 {
+		return BVAnd(a, BV(b.U-1, a.W))
+	}
 	return app(KBV, a.W, "bvurem", a, b)
 }
 func BVSDiv(a, b *Term) *Term {
